@@ -176,7 +176,11 @@ func (tr *FnCtx) oblige(name, kind, goal, src string) {
 		tr.obls = append(tr.obls, &Obligation{Name: name, Fn: tr.Short, Kind: kind, Prefix: len(tr.cmds), Goal: "true", Src: src, Ctx: tr})
 		return
 	}
-	tr.obls = append(tr.obls, &Obligation{Name: name, Fn: tr.Short, Kind: kind, Prefix: len(tr.cmds), Goal: g, Src: src, Ctx: tr})
+	// split conjunctions into separate queries (same name: all must pass); smaller goals are more stable
+	parts := splitAnd(g)
+	for _, pg := range parts {
+		tr.obls = append(tr.obls, &Obligation{Name: name, Fn: tr.Short, Kind: kind, Prefix: len(tr.cmds), Goal: pg, Src: src, Ctx: tr})
+	}
 	tr.emit("(assert " + g + ")")
 }
 
